@@ -721,4 +721,41 @@ theorem decPairsBreak_refines : ∀ (xs : List Item) (kvs : List (PData × PData
           rw [h1]; simp only [h2, h3]
 end
 
+/-! ## enough fuel; the entry point -/
+
+mutual
+theorem dsize_le : ∀ i : Item, dsize i + 1 ≤ 4 * i.encode.length
+  | .atom h => by have := Head.encode_length_pos h; simp [dsize, Item.encode]; omega
+  | .str h bs => by have := Head.encode_length_pos h; simp [dsize, Item.encode]; omega
+  | .strIndef m cs => by have := encodeChunks_length cs; simp [dsize, Item.encode]; omega
+  | .seq h xs => by
+    have := Head.encode_length_pos h; have := dsizes_le xs; simp [dsize, Item.encode]; omega
+  | .seqIndef m xs => by have := dsizes_le xs; simp [dsize, Item.encode]; omega
+  | .tag h i => by
+    have := Head.encode_length_pos h; have := dsize_le i; simp [dsize, Item.encode]; omega
+theorem dsizes_le : ∀ xs : List Item, dsizes xs ≤ 4 * (encodeList xs).length
+  | [] => by simp [dsizes]
+  | x :: xs => by have := dsize_le x; have := dsizes_le xs; simp [dsizes, encodeList]; omega
+end
+
+/-- **refinement**: on the encoding of any well-formed tree that the tree decoder `ofItem` accepts
+    (canonical or not: any head widths, any chunking, definite or indefinite), followed by anything,
+    the byte-level decoder returns the same value and stops exactly after the item -/
+theorem decodeBytes_refines (i : Item) (d : PData) (r : Bytes) (hw : i.wf = true) (ho : ofItem i = some d) :
+    decodeBytes (i.encode ++ r) = some (d, r) := by
+  unfold decodeBytes fuelFor
+  apply decP_refines i d _ r hw ho
+  have := dsize_le i
+  simp only [List.length_append]; omega
+
+/-- the byte-level decoder agrees with the strict-parser decoder wherever the latter succeeds -/
+theorem decodeBytes_of_decode (bs : Bytes) (d : PData) (h : decode bs = some d) :
+    ∃ r, decodeBytes bs = some (d, r) := by
+  unfold decode at h
+  split at h
+  · rename_i i r hp
+    obtain ⟨e, hw⟩ := parseItem_sound bs i r hp
+    exact ⟨r, by rw [e]; exact decodeBytes_refines i d r hw h⟩
+  · simp at h
+
 end PallasVerif.PlutusData.Dec
